@@ -244,53 +244,58 @@ CLAIMS["C14"] = dict(
 
 CLAIMS["C08"] = dict(
     category="other",
-    text=("Decides: (D1) for every model factory and every option combination enumerated from the source (34 scenarios: linear "
-          "elastic x strain measures, neo-Hookean versions, Gent, J2 x kinematics x hardening laws x rate sensitivity, single- and "
-          "multi-branch viscoelastic, phase-field threshold x kinematics) the energy closure, interpreted by constant propagation "
-          "on the rest-state lattice (dual rational constants over positive material symbols, virgin state from the model's own "
-          "initial state), has value exactly 0 and zero first variation in the three diagonal directions and the isotropic one; "
-          "hardening energies vanish and flow stresses are positive at zero plastic strain; (D2) configuration-frame typing: the "
-          "finite-deformation energies depend on F only through well-typed invariants (terms in tr F cancel exactly), strain "
-          "measures have reference/intermediate frames, internal-state updates keep the frames of the state, and the closed-form "
-          "3x3 helpers (inv, detpIm1, det, deviator, sym) satisfy their polynomial identities for a generic matrix; the hyperelastic "
-          "energies are dimensionally homogeneous (symbolic rescaling of the units of the named material constants multiplies the "
-          "energy by the stress unit exactly). Objectivity "
-          "and isotropy as floating-point statements on evolved states are NOT decided."),
-    design_ref="DESIGN.md section 4, C08",
-    technique="static analysis: sparse conditional constant propagation over dual rational constants (abstract interpretation of the material factories), non-commutative polynomial frame typing, polynomial identity checking")
+    text=("Decides: (D1) for every model factory and every option combination (enumerated semantically: the factory is interpreted with a recording "
+          "property dictionary that forks on every comparison, membership test, .get default and dict lookup by option value -- "
+          "rules/materials.py, rules/C08_options.py -- so dict dispatch, match and guard clauses enumerate like if/elif chains) the energy "
+          "closure, interpreted by constant propagation on the rest-state lattice (dual rational constants over positive material symbols, virgin "
+          "state from the model's own initial state), has value exactly 0 and zero first variation in the three diagonal directions and the "
+          "isotropic one; hardening energies vanish and flow stresses are positive at zero plastic strain; energies are dimensionally "
+          "homogeneous under unit scaling of the named property keys; (D2) configuration-frame typing by interpreting the model factories and the closures of the public MaterialModel interface on frame-typed symbolic inputs (rules/frames.py: F : [spatial, reference], stored tensors P_k : [intermediate_k, reference] or [R, R] with the consistent typing inferred, matrix values as non-commutative polynomials in typed letters, spectral functions / expm / inverses of sums as fresh letters memoised on their argument, closed-form 3x3 helpers recognised by their value on a generic matrix, det(c1+W) expanded by Cayley-Hamilton; helpers, loops, comprehensions, NamedTuples, partial, lax.cond / where, .at[].set, hstack are followed, never matched): an energy built from invariants only is PROVED objective "
+          "and isotropic; a spectral function / expm / selection applied to something that is not a tensor of one frame pair is REFUTED at that "
+          "expression; when non-invariant atoms survive cancellation the derived expression is evaluated at pseudo-random tensors before and "
+          "after rotating each frame -- a change is a witness (REFUTED), no change is UNDECIDED; the closed-form tensor helpers satisfy their "
+          "polynomial identities on a generic symbolic matrix. Symmetry of the Kirchhoff stress follows from objectivity (not separately "
+          "decided); evaluation inside compiled batches and accuracy over decades of strain are NOT decided."),
+    design_ref="DESIGN.md section 4, C08 and section 11.8.5",
+    technique="static analysis: abstract interpretation (constant propagation on a rest-state lattice of dual rational constants; frame-typed non-commutative polynomial values with rotation witnesses); semantic option enumeration; unit-scaling homogeneity")
 
 CLAIMS["C09"] = dict(
     category="other",
-    text=("Decides by abstract interpretation of J2Plastic on generic symbolic tensors (both outcomes of every undecidable "
-          "comparison): the flow direction and the tensor segment of every state increment are identically traceless, increments "
-          "have NUM_STATE_VARS entries, the state layout constants agree with initial states and updates, the finite update is "
-          "exp_symm(increment segment) @ Fp_old with consistent frames (so det Fp is preserved); the root-finder bracket starts at "
-          "the old equivalent plastic strain and the symbolic plastic residual is strictly negative at its lower and strictly "
-          "positive at its upper end while yielding, for linear hardening with modulus > 0 and = 0 and old plastic strain > 0 and = 0 "
-          "(so the root finder's sign test cannot be decided by round-off), the increment is root - old and the elastic branch adds "
-          "zero; the dummy flow direction is unreachable on a yielding step for yield strength / shear modulus >= 1e-6 (bound 2 sqrt(c |N|^2) from "
-          "the degeneracy threshold c); energy, state update and hardening potentials (all hardening laws, with and without rate sensitivity, all "
-          "kinematics) are dimensionally homogeneous under rescaling of the stress and time units; the residual is d(incremental_potential)/d(eqps) and the root lambda varies exactly that "
-          "slot; each kinematics option pairs the energy's strain measure with the state update that uses it. Yield consistency "
-          "to tolerance, minimality, idempotence and the size of the degeneracy tolerance are NOT decided."),
-    design_ref="DESIGN.md section 4, C09",
-    technique="static analysis: abstract interpretation on generic symbolic tensors with path splitting, sign analysis of the symbolic residual at the bracket ends, dimensional analysis by symbolic unit scaling, slot agreement, option dispatch pairing, frame typing")
+    text=("Every obligation is an identity or sign statement about values obtained by interpreting the public model interface (rules/C09_sym.py: the "
+          "factory and the closures it returns, for every kinematics option the factory itself distinguishes) on symbolic inputs, on every feasible "
+          "path (both outcomes of every comparison the interpreter cannot decide, memoised on the normalised difference so that the same test "
+          "elsewhere takes the same outcome); the scalar solve is a recorder that returns a symbolic root, spectral functions of non-diagonal "
+          "tensors are opaque symmetric matrices interned on their argument, state-slot roles are found by use: (D1) isochoric -- on every path "
+          "the plastic increment is traceless (additive: new - old; multiplicative: the argument A of new = exp(A) @ old), virgin state, update "
+          "structure (a transposed or reversed product is named), the layout constants agree with the roles, the dummy flow direction below the "
+          "degeneracy threshold cannot be reached while yielding (assumes yield strength / shear modulus >= 1e-6), frames of the update "
+          "(rules/frames.py); (D2) irreversible -- the bracket handed to the root finder starts at the old equivalent plastic strain, the new "
+          "value is the root, elastic paths leave the state unchanged, the yield test equals a positive multiple of minus the residual at the "
+          "old state minus a non-negative tolerance, the residual is positive at the upper end (root-finder contract) for H > 0, H = 0, with and "
+          "without rate sensitivity; (D3) variational wiring -- dW/d(eqps) of the exposed energy is a positive multiple of the residual "
+          "(stationarity), for additive kinematics the energy is the same before and after the update is committed, the energy closure and the "
+          "state update solve the same scalar equation on the same bracket for each kinematics option; dimensional homogeneity under unit "
+          "scaling. Yield consistency to tolerance, minimality, idempotence as numbers and commit invariance for the multiplicative update on "
+          "non-coaxial data are NOT decided. Unmodelled constructs give UNDECIDED."),
+    design_ref="DESIGN.md section 4, C09 and section 11.8",
+    technique="static analysis: abstract interpretation of the public model interface on symbolic inputs with exhaustive path exploration, a recording root finder, interned opaque spectral functions; exact rational identities and sign analysis")
 
 CLAIMS["C11"] = dict(
     category="other",
-    text=("Decides for both viscoelastic modules, by abstract interpretation on generic symbolic tensors with exact identities: "
-          "(D1) every branch's viscous strain increment is identically traceless and its new distortion is expm(own increment) @ "
-          "own old distortion with the trial strain taken from the own old distortion, frames consistent; (D2) the dissipation "
-          "potential is G*tau*dev(D):dev(D) and the reported dissipated energy is the sum over branches of "
-          "G*tau*(dt/(tau+dt))^2/dt*|dev E|^2, a sum of positive multiples of squares; (D3) the update factor is dt/(tau+dt) "
-          "(0 at dt=0, limit 1), the energy is W_eq + sum_b G_b[(1-f_b)^2 + tau_b f_b^2/dt]|dev E_b|^2, equals the instantaneous "
-          "value at dt=0 and tends to the equilibrium value as dt -> infinity (limits of rational functions); (D4) property index "
-          "constants, _make_properties order and the per-branch index map agree; energy, state update and dissipation are "
-          "dimensionally homogeneous under rescaling of the stress and time units (a missing or doubled dt / relaxation time is "
-          "reported). Monotone relaxation over multi-step histories "
-          "is NOT decided."),
-    design_ref="DESIGN.md section 4, C11",
-    technique="static analysis: abstract interpretation on generic symbolic tensors, exact rational identities and limits, dimensional analysis by symbolic unit scaling, slot-table agreement, frame typing")
+    text=("The two viscoelastic factories are called by the abstract interpreter and the closures of the public MaterialModel interface are "
+          "interpreted on generic symbolic inputs; only the inverse of a non-diagonal matrix, isotropic functions of a symmetric tensor and the matrix "
+          "exponential are abstracted, each by a generic symbolic matrix memoised on its exact argument; roles are read off the values (a branch "
+          "is a block of nine state entries, the increment A_b is the argument of the exponential multiplied with block b, the relaxed strain "
+          "T_b = lim dt->inf A_b, factor f_b = A_b/T_b, W_eq the energy with all strain symbols zero): (D1) A_b is identically traceless; block b "
+          "of the new state is exp(A_b) @ old block b with A_b built from the trial strain of block b only (a product with another block, or a "
+          "determinant change for an explicit unimodular witness, is refuted); frames of the update (rules/frames.py); (D2) the reported "
+          "dissipated energy is sum_b c_b q_b with c_b = G_b tau_b f_b^2/dt > 0; (D3) f_b = dt/(tau_b + dt), W - W_eq = sum_b G_b[(1-f_b)^2 + "
+          "tau_b f_b^2/dt] q_b, so W(dt=0) = W_eq + sum G_b q_b and W - W_eq -> 0 as dt -> inf; dimensional homogeneity; the exact algebra of the "
+          "shared eigen solver (rules/C12_eigen.py); (D4) every branch uses the modulus and the relaxation time of one branch suffix, different "
+          "branches different suffixes, the public index constants address the property they name. Monotone decay of the stored energy over "
+          "multi-step histories is numerical and NOT decided. An update factor with the right limits that is not dt/(tau+dt) is UNDECIDED."),
+    design_ref="DESIGN.md section 4, C11 and section 11.8.5",
+    technique="static analysis: abstract interpretation of the model factories on generic symbolic tensors with memoised opaque matrix functions, role inference from values, exact rational identities and limits in dt")
 
 CLAIMS["C17"] = dict(
     category="other",
@@ -370,10 +375,11 @@ CLAIMS["C10"] = dict(
     text=("Decides the derivative wiring only: every custom_jvp rule computes its primal output by calling the decorated function and "
           "differentiates the same scalar function as the primal; safe_sqrt's rule is v*(0 if x<=0 else 0.5/safe_sqrt(x)); the "
           "closed-form helpers autodiff differentiates through satisfy their identities; find_root is custom_root with tangent solve "
-          "y/g(1); stress outputs are value_and_grad(L, k) with k the position of the displacement gradient in all three mechanics "
-          "factories; ScalarRootFind.get_settings fills its fields by name; the flow stress is grad of the hardening energy w.r.t. the plastic strain, the plastic residual is the "
-          "derivative of the incremental potential w.r.t. eqps, the element stiffness is the Hessian w.r.t. the element nodal field, "
-          "and J2's hardening tuple slots match HardeningModel; no function in the call cone of any material energy density or "
+          "y/g(1); the Lagrangian adapter and all value_and_grad / hessian sites of Mechanics are interpreted with marked arguments (stress outputs "
+          "differentiate w.r.t. the displacement gradient, the element stiffness w.r.t. the element nodal field; argnums= handled); "
+          "ScalarRootFind.get_settings fills its fields by name; on interpreted values the flow stress equals d(hardening energy)/d(eqps) (a "
+          "rate-sensitive case distinguishes the old plastic strain), the plastic residual is the derivative of the incremental potential w.r.t. "
+          "eqps (C09's stationarity test), and J2's hardening slots match HardeningModel (values at zero strain, d(yield threshold)/ds0); no function in the call cone of any material energy density or "
           "mechanics factory (226 scopes) calls stop_gradient or carries a hand-written derivative rule other than the verified ones. Agreement of delivered derivatives with finite differences is "
           "numerical and NOT decided."),
     design_ref="DESIGN.md section 4, C10",
